@@ -5,7 +5,8 @@ set -u
 D=$1; P=$2; T=${3:-quick}
 cd /repo || exit 2
 if ! git diff --quiet; then echo "/repo has uncommitted changes"; exit 2; fi
-git apply "$D/patch.diff" || { echo "patch does not apply"; exit 2; }
+# later upstream fixes may have moved the context of an older seed: fall back on patch(1), which tolerates offsets
+git apply "$D/patch.diff" 2>/dev/null || patch -p1 -s --no-backup-if-mismatch < "$D/patch.diff" || { echo "patch does not apply"; git checkout -- .; exit 2; }
 cd /verif
 VT_NO_EVIDENCE=1 /venv/bin/python -m vt.run "$P" --tier "$T" > /tmp/seedtest.out 2>&1
 rc=$?
